@@ -7,11 +7,11 @@ from concurrent.futures import ThreadPoolExecutor
 INVS = "DefaultRule NoErrNoMatch Monotone ResultOnlyWithoutError AbortNeverWithoutRegs Emit"
 
 
-def one(ctx, binary, depth, maxregs, part, parts):
+def one(ctx, binary, depth, maxregs, part, parts, tag=""):
     tla = "---- MODULE MC ----\nEXTENDS ClassifyTable\n====\n"
     c = ("SPECIFICATION Spec\nCONSTANTS\n TermDepth = %d\n MaxRegs = %d\n Part = %d\n Parts = %d\nINVARIANTS %s\nCHECK_DEADLOCK FALSE\n"
          % (depth, maxregs, part, parts, INVS))
-    d = vlib.stage_specs(ctx, "cl_%d" % part, tla, c)
+    d = vlib.stage_specs(ctx, "cl%s_%d" % (tag, part), tla, c)
     res, recs, summ = pipeline.tlc_to_harness(ctx, d, binary, "classify_rows", {}, dict(timeout=2400, workers=4), prefix='"{')
     if res["viol"]:
         raise vlib.Inconclusive("sanity theorem fails on the rule itself:\n" + "\n".join(res["tail"][-40:]))
@@ -31,7 +31,10 @@ def run(ctx):
     binary = vlib.build_harness(ctx)
     depth, maxregs, parts = (1, 3, 4) if ctx.tier == "quick" else (2, 4, 8)
     with ThreadPoolExecutor(max_workers=4) as ex:
-        for f in [ex.submit(one, ctx, binary, depth, maxregs, p, parts) for p in range(parts)]:
+        futs = [ex.submit(one, ctx, binary, depth, maxregs, p, parts) for p in range(parts)]
+        if ctx.tier == "quick":   # deeper terms (wrapped joins, joined wrappers) against single registrations
+            futs += [ex.submit(one, ctx, binary, 2, 1, p, 2, "d2") for p in range(2)]
+        for f in futs:
             f.result()
     return vlib.finish(ctx, rule="complete table: every (set of <= MaxRegs registrations out of 9) x (3 results) x (nil + every error term up to TermDepth over "
                        "{E1,E2,E3,TV,TP} with W, WT, J); each row observed through fallback, retry, breaker (3 ways), abort and hedge-cancel; "
